@@ -19,7 +19,7 @@ JudgeOne(i) ==
                        !.c01 = v0.c01 /\ o.fault_outside = 0,
                        !.w01 = v0.w01 \cup (IF o.fault_outside = 0 THEN {} ELSE Seq2Set(o.fault_notes)),
                        !.kf01 = IF o.fault_outside = 0 THEN v0.kf01 ELSE ""]
-               @@ [w12 |-> IF o.fault_silent = 0 /\ v0.c12 THEN {} ELSE Seq2Set(o.fault_notes) \cup (IF v0.c12 THEN {} ELSE {"policy rejection reported as a plain error"})]
+               @@ [c19 |-> o.st # "panic", w19 |-> IF o.st = "panic" THEN {o.err} ELSE {}, kf19 |-> ""] @@ [w12 |-> IF o.fault_silent = 0 /\ v0.c12 THEN {} ELSE Seq2Set(o.fault_notes) \cup (IF v0.c12 THEN {} ELSE {"policy rejection reported as a plain error"})]
   IN PrintT("@@" \o ToJson([fam |-> "judge", idx |-> i,
                             v |-> vf,
                             l1 |-> [st |-> l1.st, why |-> l1.why, v |-> Verdict(o.hist, l1.st, l1.fs, l1)]]))
